@@ -494,6 +494,16 @@ class Chan(Engine):
             return
         ctx.check(text == want, 'C11.codec', 'address of (hrp %r, version %d, %d-byte program) is %r, BIP173 gives %r' % (hrp, ver, len(prog), text, want), ver=ver, plen=len(prog))
         orig = (ver, prog)
+        # the program handed over in every flavour a caller may hold it in (a one-shot iterator included:
+        # the encoder may walk over it once, not peek and walk again)
+        for flav, val in (('list', list(prog)), ('bytearray', bytearray(prog)), ('tuple', tuple(prog)), ('iterator', iter(prog)),
+                          ('generator', (b for b in prog)), ('memoryview', memoryview(prog)), ('map', map(int, prog))):
+            try:
+                t2 = SA.encode(hrp, ver, val)
+            except Exception as e:
+                t2 = 'raised %s' % type(e).__name__
+            ctx.check(t2 == want, 'C11.codec', 'address of a %d-byte program handed over as a %s is %r, BIP173 gives %r' % (len(prog), flav, t2, want), ver=ver, plen=len(prog), flavour=flav)
+        ctx.probe('program-flavours')
         ctx.check(self._dec(hrp, want) == orig, 'C11.codec', 'fault-free channel: %r does not decode to the original version and program' % want, ver=ver, plen=len(prog))
         if ver == 0 and hrp in ('bc', 'tb', 'bcrt'):
             self._cbech32(hrp, want, orig)
